@@ -27,12 +27,28 @@ pub struct SpyState {
     pub fail_at: Vec<u64>,
     pub fail_from: Option<u64>,
     pub failures_injected: u64,
+    /// the io::ErrorKind of the injected failures (the crate must treat every kind alike)
+    pub fail_kind: io::ErrorKind,
+    /// every flush() fails (on top of fail_at / fail_from)
+    pub fail_flush: bool,
+    /// the call numbers at which a failure was injected (replaying them as `fail_at` reproduces the run)
+    pub injected_at: Vec<u64>,
     pub width_queries: u64,
     pub height_queries: u64,
 }
 
 #[derive(Clone, Debug)]
 pub struct Spy(pub Arc<Mutex<SpyState>>);
+
+/// the error kinds the failing terminal rotates through
+pub const FAIL_KINDS: [io::ErrorKind; 6] = [
+    io::ErrorKind::Interrupted,
+    io::ErrorKind::WouldBlock,
+    io::ErrorKind::BrokenPipe,
+    io::ErrorKind::Other,
+    io::ErrorKind::TimedOut,
+    io::ErrorKind::UnexpectedEof,
+];
 
 impl Spy {
     pub fn new(width: u16, height: u16) -> Self {
@@ -44,6 +60,9 @@ impl Spy {
             fail_at: vec![],
             fail_from: None,
             failures_injected: 0,
+            fail_kind: io::ErrorKind::Other,
+            fail_flush: false,
+            injected_at: vec![],
             width_queries: 0,
             height_queries: 0,
         })))
@@ -63,9 +82,10 @@ impl Spy {
         let mut s = self.0.lock().unwrap();
         let k = s.calls;
         s.calls += 1;
-        if s.fail_at.contains(&k) || s.fail_from.map_or(false, |f| k >= f) {
+        if s.fail_at.contains(&k) || s.fail_from.map_or(false, |f| k >= f) || (s.fail_flush && op == TOp::Flush) {
             s.failures_injected += 1;
-            return Err(io::Error::new(io::ErrorKind::Other, "injected"));
+            s.injected_at.push(k);
+            return Err(io::Error::new(s.fail_kind, "injected"));
         }
         s.ops.push(op);
         Ok(())
